@@ -72,7 +72,7 @@ func genSchedCase() *rapid.Generator[Case] {
 		}
 		// schedule: uniform picks among the runnable workers; in half of the cases
 		// the picks come in runs (a worker keeps the baton for a few yield points)
-		n := rapid.IntRange(0, 160).Draw(t, "schedlen")
+		n := rapid.IntRange(0, 260).Draw(t, "schedlen")
 		runs := rapid.Bool().Draw(t, "runs")
 		for len(c.Cfg.Sched) < n {
 			pick := uni(t, 6, "pick")
